@@ -121,6 +121,21 @@ func EvalText(text string, data map[string]interface{}) EvalOut {
 		if c := out.String(); c != a {
 			return EvalOut{Panic: fmt.Sprintf("the value returned by the first evaluation of %q was %s and reads %s after later evaluations", text, a, c)}
 		}
+		// Spacing is not part of the meaning: the same tokens with every optional separator removed
+		// (`a?.5:b`, `x||!y`, `1- -2`) parse and evaluate to the same outcome.
+		if ct, ok := ref.CompactText(text); ok && ct != text {
+			q := Parse([]byte(ct))
+			if !q.OK() {
+				return EvalOut{Panic: fmt.Sprintf("%q is accepted, but the same tokens without optional spaces, %q, are rejected: %v %v", text, ct, q.Err, q.Panic)}
+			}
+			r3 := formula.NewRunner()
+			if data != nil {
+				r3.SetThis(data)
+			}
+			if c := Eval(r3, context.Background(), q.Src.Expression).String(); c != a {
+				return EvalOut{Panic: fmt.Sprintf("%q evaluates to %s, but the same tokens without optional spaces, %q, to %s", text, a, ct, c)}
+			}
+		}
 	}
 	return out
 }
